@@ -117,6 +117,20 @@ def static_classes(prog):
         if isinstance(n, ast.Try) and n.finalbody:
             if _own(n.finalbody, (ast.Raise,)) and _own(n.body + n.handlers + n.orelse, (ast.Return, ast.Break, ast.Continue)):
                 cls['raise_in_finally_over_jump'] = True
+    # (9)-(13) construct-specific conversion failures found by the C04 builder's context enumeration
+    for n in ast.walk(fn):
+        if isinstance(n, ast.Call) and any(isinstance(x, ast.NamedExpr) for a in n.args for x in ast.walk(a)):
+            cls['namedexpr_in_call_argument'] = True
+        if isinstance(n, ast.FunctionDef) and n is not fn:
+            if n.returns is not None and any(isinstance(x, ast.Call) for x in ast.walk(n.returns)):
+                cls['call_in_return_annotation_of_nested_def'] = True
+            if any(isinstance(x, ast.Lambda) for d in n.decorator_list for x in ast.walk(d)):
+                cls['lambda_in_decorator_of_nested_def'] = True
+        if isinstance(n, ast.Call) and isinstance(n.func, ast.Attribute) and n.func.attr == 'set_loop_options' and not n.args and not n.keywords:
+            cls['set_loop_options_without_arguments'] = True
+    body = [s for s in fn.body]
+    if len(body) == 1 and isinstance(body[0], ast.Expr) and isinstance(body[0].value, ast.Constant) and isinstance(body[0].value.value, str):
+        cls['docstring_only_function_body'] = True
     return cls
 
 
@@ -171,7 +185,9 @@ def classify(prog, mod, args, dec, static, orig_outcome=None):
         return 'nested_fn_param_leaks_into_enclosing_bound'
     if 'augassign_value_reads_not_ld_wrapped' in static and orig_outcome == ('exc', 'NameError'):
         return 'augassign_value_reads_not_ld_wrapped'
-    for k in ('raise_in_finally_over_jump', 'except_handler_binds_name', 'try_else_block_starts_with_if', 'chained_comparison_effectful_middle_operand'):
+    for k in ('namedexpr_in_call_argument', 'call_in_return_annotation_of_nested_def', 'lambda_in_decorator_of_nested_def',
+              'set_loop_options_without_arguments', 'docstring_only_function_body',
+              'raise_in_finally_over_jump', 'except_handler_binds_name', 'try_else_block_starts_with_if', 'chained_comparison_effectful_middle_operand'):
         if k in static:
             return k
     return None
